@@ -561,7 +561,8 @@ def gen_cell_nets(rng):
     """nets of one cell in file order, with the collisions the reader has to sort out: bits of
     several buses interleaved, scalars named like a bus or like a bit, identifiers differing only
     in case, duplicate bits, renamed nets whose name is another net's identifier, names containing
-    * or ? (ordinary characters: the reader looks cables up exactly since the repair of K7)."""
+    * or ? (ordinary characters: the reader looks cables up exactly since the repair of K7), names
+    starting with a backslash with no, one or several spaces (K9 repaired), the empty name."""
     nets = []
     used_ident = set()
     pin = [0]
@@ -581,7 +582,7 @@ def gen_cell_nets(rng):
             for i in rng.sample(range(lo, lo + 4), rng.choice([1, 2, 3])):
                 nets.append(('%s_%d_' % (base, i), '%s[%d]' % (name, i), pins()))
         elif r < 0.75:
-            nets.append((base, base if rng.random() < 0.6 else rng.choice(['[3:0]' + base, base + '[2]', 'other', '*', base[:1] + '?', base[:1] + '*[1]'])  , pins()))
+            nets.append((base, base if rng.random() < 0.6 else rng.choice(['[3:0]' + base, base + '[2]', 'other', '*', base[:1] + '?', base[:1] + '*[1]', '', '\\' + base + '[3] '])  , pins()))
         elif r < 0.9:
             i = rng.choice([0, 2])
             nets.append(('%s_%d_' % (base, i), rng.choice(['%s_%d_' % (base, i), 'plain', '%s[%d]' % (base, i + 1)]), pins()))
